@@ -27,16 +27,19 @@ def native(req, src_root, script='native_c01.py'):
     with tempfile.NamedTemporaryFile('w', suffix='.json', delete=False) as f:
         json.dump(req, f, default=str)
         p = f.name
+    cwd = tempfile.mkdtemp(prefix='native_cwd_')       # a changed tree may write relative paths: keep them out of /verif and /repo
     try:
         env = dict(os.environ, PYTHONPATH=src_root)
         r = subprocess.run(['/venv/bin/python', os.path.join(HERE, script), p], capture_output=True, text=True,
-                           env=env, timeout=120)
+                           env=env, timeout=300, cwd=cwd)
         line = [l for l in r.stdout.splitlines() if l.startswith('{')]
         if not line:
             return {'confirmed': None, 'error': (r.stderr or r.stdout)[-500:]}
         return json.loads(line[-1])
     finally:
         os.unlink(p)
+        import shutil
+        shutil.rmtree(cwd, ignore_errors=True)
 
 
 def replay(name, e, src_root):
